@@ -21,6 +21,7 @@ RULE = (
     "location has the 0-based line header+i, the first rejected column, a text starting with the input's base name "
     "and 'R<line+1>', and a message naming the field. Non-trivial: >= 1 rejected row whose culprit is not in column "
     "1 or that lies behind a header or a ragged row; distinct by hash of (CID rows, table, via)."
+    "The consumer overwrites every delivered row after copying it; ODS data are stored with runs of equal rows / cells; sources include spooled temporary files (name None); with checks in the CID two readings are set up under one Cid before either is consumed and both are judged."
 )
 ASSUMPTIONS = [
     "cells come from pools with a definite verdict; a neutral cell taints the rest of the table (not judged)",
